@@ -312,7 +312,8 @@ fn history_case(rng: &mut Rng, rec: &mut Rec) {
                 }
             }
             if let AnyFlow::Redirect(mut r) = std::mem::replace(&mut d2.flow, AnyFlow::Gone) {
-                let has_location = ex.head.fields.iter().any(|f| f.name.eq_ignore_ascii_case("location"));
+                // (the last Location counts; a value that is not text cannot be followed)
+                let has_location = ex.head.fields.iter().filter(|f| f.name.eq_ignore_ascii_case("location")).last().map(|f| f.value.is_ascii()).unwrap_or(false);
                 let policy = if rng.chance(1, 2) { RedirectAuthHeaders::Never } else { RedirectAuthHeaders::SameHost };
                 rec.call();
                 // half of the followed redirects are driven as a complete second exchange (below)
